@@ -492,6 +492,170 @@ fn chunk_signed_documents(acc: &mut Acc) -> usize {
     n
 }
 
+/// Other spellings of the same value. An RFC 3339 date-time denotes an instant; clients other than the AWS SDKs write it
+/// with a numeric UTC offset. Every date-time text the SDK put on the wire (header values and XML text), one occurrence at a
+/// time, is re-spelled as the same instant at +02:00, -05:30 and +00:00: if the request is still accepted, the backend's
+/// input is the one of the original request.
+fn respelled_values(acc: &mut Acc) -> usize {
+    use time::format_description::well_known::Rfc3339;
+    let ds = driver::all();
+    let cases: Vec<usize> = (0..ds.len()).filter(|di| !UNREACHABLE.contains(&ds[*di].name())).collect();
+    // byte ranges of RFC 3339 "....Z" texts
+    fn stamps(text: &str) -> Vec<(usize, usize)> {
+        let b = text.as_bytes();
+        let mut out = Vec::new();
+        let mut i = 0;
+        while i + 20 <= b.len() {
+            let d = |k: usize| b[i + k].is_ascii_digit();
+            if d(0) && d(1) && d(2) && d(3) && b[i + 4] == b'-' && d(5) && d(6) && b[i + 7] == b'-' && d(8) && d(9) && b[i + 10] == b'T' && d(11) && d(12) && b[i + 13] == b':' && d(14) && d(15) && b[i + 16] == b':' && d(17) && d(18) {
+                let mut j = i + 19;
+                if j < b.len() && b[j] == b'.' {
+                    j += 1;
+                    while j < b.len() && b[j].is_ascii_digit() {
+                        j += 1;
+                    }
+                }
+                if j < b.len() && b[j] == b'Z' {
+                    out.push((i, j + 1));
+                    i = j + 1;
+                    continue;
+                }
+            }
+            i += 1;
+        }
+        out
+    }
+    fn respell(z: &str) -> Vec<String> {
+        let Ok(t) = time::OffsetDateTime::parse(z, &Rfc3339) else { return vec![] };
+        let mut v = Vec::new();
+        for (h, m) in [(2i8, 0i8), (-5, -30)] {
+            if let Ok(off) = time::UtcOffset::from_hms(h, m, 0) {
+                if let Some(local) = t.checked_to_offset(off) {
+                    if let Ok(s) = local.format(&Rfc3339) {
+                        v.push(s);
+                    }
+                }
+            }
+        }
+        v.push(z.replace('Z', "+00:00"));
+        v
+    }
+    let n = std::sync::atomic::AtomicUsize::new(0);
+    par_items(acc, &cases, |a, _ci, di| {
+        let d = ds[*di].as_ref();
+        let labels = d.input_alt_labels();
+        let mut alt_sets: Vec<Vec<usize>> = labels.iter().position(|l| l == driver::FULL_INPUT).map(|f| vec![f]).into_iter().collect();
+        for (i, l) in labels.iter().enumerate() {
+            if l.ends_with("=Some(base)") && l.matches('.').count() == 1 {
+                alt_sets.push(vec![i]);
+            }
+        }
+        let mut seen_sites: std::collections::BTreeSet<String> = std::collections::BTreeSet::new();
+        for alts in alt_sets {
+            let Some(base) = sdk::capture(d, &alts, Addressing::Path) else { continue };
+            let body_text = String::from_utf8(base.body.clone()).ok();
+            // (the integrity headers the SDK computed over its own body are not part of the question)
+            let mut plain = base.req.clone();
+            for h in ["content-md5", "x-amz-checksum-crc32", "x-amz-sdk-checksum-algorithm"] {
+                plain.remove_header(h);
+            }
+            // (site, rebuilt request, body)
+            let mut variants: Vec<(String, Req, Vec<u8>)> = Vec::new();
+            for (hi, (hn, hv)) in plain.headers.iter().enumerate() {
+                let Ok(text) = std::str::from_utf8(hv) else { continue };
+                for (s0, s1) in stamps(text) {
+                    for sp in respell(&text[s0..s1]) {
+                        let mut r = plain.clone();
+                        r.headers[hi].1 = format!("{}{sp}{}", &text[..s0], &text[s1..]).into_bytes();
+                        variants.push((format!("header {hn} as {sp}"), r, base.body.clone()));
+                    }
+                }
+            }
+            if let Some(text) = &body_text {
+                for (k, (s0, s1)) in stamps(text).into_iter().enumerate() {
+                    for sp in respell(&text[s0..s1]) {
+                        let nb = format!("{}{sp}{}", &text[..s0], &text[s1..]).into_bytes();
+                        let mut r = plain.clone();
+                        r.set_header("content-length", &nb.len().to_string());
+                        let elem = text[..s0].rsplit('<').next().unwrap_or("").trim_end_matches('>').to_owned();
+                        variants.push((format!("payload <{elem}>#{k} as {sp}"), r, nb));
+                    }
+                }
+            }
+            // other spellings by member type (header- and query-bound members): integers with a leading zero or a plus sign,
+            // booleans in another case, an http-date in its two obsolete forms (RFC 9110 5.6.7), a query value percent-escaped
+            let model = op_model(d.name()).expect("model");
+            for m in model.input.iter().filter(|m| matches!(m.pos, Pos::Header | Pos::Query)) {
+                let (current, set): (Option<String>, Box<dyn Fn(&mut Req, &str)>) = if m.pos == Pos::Header {
+                    let w = m.wire;
+                    (plain.get_header(w), Box::new(move |r: &mut Req, v: &str| r.set_header(w, v)))
+                } else {
+                    let w = m.wire;
+                    let cur = plain.query().and_then(|q| q.split('&').find_map(|p| p.strip_prefix(&format!("{w}=")).map(str::to_owned)));
+                    (cur, Box::new(move |r: &mut Req, v: &str| r.target = replace_query(&r.target, w, &|_| vec![format!("{w}={v}")])))
+                };
+                let Some(cur) = current else { continue };
+                let mut sp: Vec<String> = Vec::new();
+                match m.shape {
+                    "integer" | "long" if cur.bytes().all(|b| b.is_ascii_digit()) && !cur.is_empty() => sp.extend([format!("0{cur}"), format!("+{cur}"), format!("000000000000000000000000{cur}")]),
+                    "boolean" if cur == "true" || cur == "false" => sp.extend([cur.to_ascii_uppercase(), format!("{}{}", cur[..1].to_ascii_uppercase(), &cur[1..])]),
+                    "timestamp" if cur.ends_with(" GMT") && cur.len() == 29 => {
+                        // "Fri, 02 Jan 1970 00:00:00 GMT" -> "Friday, 02-Jan-70 00:00:00 GMT" and "Fri Jan  2 00:00:00 1970"
+                        let (wd, dd, mon, yyyy, hms) = (&cur[..3], &cur[5..7], &cur[8..11], &cur[12..16], &cur[17..25]);
+                        let long = match wd { "Mon" => "Monday", "Tue" => "Tuesday", "Wed" => "Wednesday", "Thu" => "Thursday", "Fri" => "Friday", "Sat" => "Saturday", _ => "Sunday" };
+                        sp.push(format!("{long}, {dd}-{mon}-{} {hms} GMT", &yyyy[2..]));
+                        sp.push(format!("{wd} {mon} {} {hms} {yyyy}", if let Some(d1) = dd.strip_prefix('0') { format!(" {d1}") } else { dd.to_owned() }));
+                    }
+                    _ => {}
+                }
+                if m.pos == Pos::Query && m.shape == "string" && cur == "a" {
+                    sp.push("%61".to_owned());
+                }
+                for v in sp {
+                    let mut r = plain.clone();
+                    set(&mut r, &v);
+                    variants.push((format!("{} {} as {v:?}", if m.pos == Pos::Header { "header" } else { "query" }, m.wire), r, base.body.clone()));
+                }
+            }
+            if variants.is_empty() {
+                continue;
+            }
+            // what the backend records, compared member by member (by value: two spellings of one instant are equal) with the
+            // generated input; the members that differ for the ORIGINAL request (added by the SDK itself) cancel out
+            let record = |r: &Req, body: &[u8]| -> (Option<(Vec<String>, String)>, String) {
+                let (svc, log) = SvcCfg::default().build();
+                let out = call(&svc, r, body_one_frame(body));
+                let rec = backend_calls(&log).into_iter().find(|c| c.op == d.name());
+                (rec.map(|c| (block_on(d.diff_input(&alts, &c)).unwrap_or_else(|e| vec![format!("body-stream: {e}")]), c.input_debug.clone())), out.verdict())
+            };
+            let (Some((original, original_dbg)), _) = record(&plain, &base.body) else { continue };
+            for (site, r, body) in variants {
+                if !seen_sites.insert(site.clone()) {
+                    continue;
+                }
+                let id = || format!("respelled/{}/{site}", d.name());
+                if !a.selected(&id) {
+                    continue;
+                }
+                a.eval();
+                a.nontrivial(fnv(id().as_bytes()));
+                n.fetch_add(1, std::sync::atomic::Ordering::Relaxed);
+                match record(&r, &body) {
+                    (None, _) => a.outcome("respelled value: refused (not judged: the statement does not say which spellings are accepted)"),
+                    (Some((got, _)), _) if got == original => a.outcome("respelled value: same input"),
+                    (Some((got, got_dbg)), _) => {
+                        a.outcome("respelled value: INPUT CHANGED");
+                        let member = got.iter().find(|m| !original.contains(m)).cloned().unwrap_or_default();
+                        let kind = if site.contains("T") && site.contains(':') && (site.contains("+0") || site.contains("-05:30")) { "date-time-with-utc-offset" } else { "other-spelling-of-a-typed-value" };
+                        a.fail(&format!("C02/respelled-value/{kind}/{}.{member}", d.name()), site.len() as u64, id(), format!("{}: {site} denotes the same value, yet member {member} of the backend's input changed", d.name()), json!({"original": original_dbg.chars().take(600).collect::<String>(), "respelled": got_dbg.chars().take(600).collect::<String>()}));
+                    }
+                }
+            }
+        }
+    });
+    n.load(std::sync::atomic::Ordering::Relaxed)
+}
+
 // ------------------------------------------------------------------ mutants of the XML payload
 
 /// E5 on the XML payload aws-sdk-s3 writes for the fully populated input of every operation that has one: every element and
@@ -812,7 +976,7 @@ fn reject(acc: &mut Acc, _tier: Tier) -> serde_json::Value {
 
 pub fn run(ctx: &Ctx) -> (Acc, Report) {
     let mut acc = ctx.acc();
-    let part = ctx.replay.as_deref().map(|r| if r.starts_with("fwd/") { "fwd" } else if r.starts_with("sdkdefault/") { "sdkdefault" } else if r.starts_with("chunksigned/") { "chunksigned" } else if r.starts_with("chunksigned-document/") { "chunksigned-document" } else if r.starts_with("payload/") { "payload" } else { "rej" });
+    let part = ctx.replay.as_deref().map(|r| if r.starts_with("fwd/") { "fwd" } else if r.starts_with("sdkdefault/") { "sdkdefault" } else if r.starts_with("chunksigned/") { "chunksigned" } else if r.starts_with("chunksigned-document/") { "chunksigned-document" } else if r.starts_with("payload/") { "payload" } else if r.starts_with("respelled/") { "respelled" } else { "rej" });
     let mut extra = serde_json::Map::new();
     if part.is_none_or(|p| p == "fwd") {
         if let serde_json::Value::Object(m) = forward(&mut acc, ctx.tier) {
@@ -828,6 +992,9 @@ pub fn run(ctx: &Ctx) -> (Acc, Report) {
     if ctx.replay.as_deref().is_none_or(|r| r.starts_with("chunksigned-document/")) {
         extra.insert("operations_with_a_document_body_sent_chunk_signed".into(), json!(chunk_signed_documents(&mut acc)));
     }
+    if ctx.replay.as_deref().is_none_or(|r| r.starts_with("respelled/")) {
+        extra.insert("date_time_texts_respelled_with_a_utc_offset".into(), json!(respelled_values(&mut acc)));
+    }
     if ctx.replay.as_deref().is_none_or(|r| r.starts_with("payload/")) {
         extra.insert("operations_with_payload_mutants".into(), json!(payload_mutants(&mut acc)));
     }
@@ -841,7 +1008,7 @@ pub fn run(ctx: &Ctx) -> (Acc, Report) {
     let k = ctx.tier.pick(1, 2);
     let rep = Report {
         level: "exploration",
-        rule: format!("forward: 95 operations x (base() + every single deviation of every modelled input member over the alphabet of its wire position{}) x {{direct path-style, direct virtual-hosted-style under a host parser, proxied}}; each execution = aws-sdk-s3 encodes, the adapter decodes, the recording backend's typed input is compared field by field (streams by bytes) with the generated input. second transport: PutObject / UploadPart sent chunk-signed (every header/query member, 3 chunkings), and the document the SDK wrote for each of the 29 operations with a buffered XML / text body sent chunk-signed in one and in two chunks: the same typed input arrives. rejection: for every SDK-encoded request with each optional header/query/meta member present once: every instance of duplicate (same / other value, either order) of each single-valued member, a value outside the type of each typed member, removal of each required member, Content-Length +-1/0 and a short body for buffered bodies. Distinct = distinct recorded inputs / distinct mutants.", if k == 2 { " + every pair of deviations of different members" } else { "" }),
+        rule: format!("forward: 95 operations x (base() + every single deviation of every modelled input member over the alphabet of its wire position{}) x {{direct path-style, direct virtual-hosted-style under a host parser, proxied}}; each execution = aws-sdk-s3 encodes, the adapter decodes, the recording backend's typed input is compared field by field (streams by bytes) with the generated input. second transport: PutObject / UploadPart sent chunk-signed (every header/query member, 3 chunkings), and the document the SDK wrote for each of the 29 operations with a buffered XML / text body sent chunk-signed in one and in two chunks: the same typed input arrives. other spellings: every RFC 3339 date-time text the SDK wrote (headers, XML), re-spelled as the same instant at +02:00, -05:30 and +00:00, and every header- / query-bound integer (leading zeros, plus sign), boolean (other case), http-date (RFC 850 and asctime forms) and query string (percent-escaped): the same typed input, if accepted. rejection: for every SDK-encoded request with each optional header/query/meta member present once: every instance of duplicate (same / other value, either order) of each single-valued member, a value outside the type of each typed member, removal of each required member, Content-Length +-1/0 and a short body for buffered bodies. Distinct = distinct recorded inputs / distinct mutants.", if k == 2 { " + every pair of deviations of different members" } else { "" }),
         exhaustive: true,
         extra: serde_json::Value::Object(extra),
         assumptions: vec![
